@@ -166,6 +166,9 @@ type Node struct {
 	RecordPayable bool
 	// PreRun is called with the sequence number of the leg about to execute (fault plans).
 	PreRun func(seq int)
+	// NoScribble: leave the returned output untouched (replay twins, whose output is compared after
+	// the call returned).
+	NoScribble bool
 	// AbortOnFault: a call that fails because an injected dependency fault fired is an aborted
 	// processing attempt (see Leg.Aborted) instead of a rejection.
 	AbortOnFault bool
@@ -573,7 +576,36 @@ func (n *Node) run(side int, shard uint32, c Call, msg *Message, snd, dst *world
 		}
 	}
 	n.notify(leg)
+	if !n.NoScribble {
+		scribbleOutput(leg.Out)
+	}
 	return leg
+}
+
+// scribbleOutput: what a call returns belongs to the caller, who goes on to update it in place (the
+// VM merges output accounts into one another). After the observers have seen the leg every big
+// integer of the output is changed; a value shared with the library's own state would carry the
+// change into later calls.
+func scribbleOutput(o *vmcommon.VMOutput) {
+	if o == nil {
+		return
+	}
+	bump := func(v *big.Int) {
+		if v != nil {
+			v.Add(v, big.NewInt(0x5c21bb1e))
+		}
+	}
+	bump(o.GasRefund)
+	for _, oa := range o.OutputAccounts {
+		if oa == nil {
+			continue
+		}
+		bump(oa.Balance)
+		bump(oa.BalanceDelta)
+		for i := range oa.OutputTransfers {
+			bump(oa.OutputTransfers[i].Value)
+		}
+	}
 }
 
 // heapAllocs: cumulative bytes allocated. ReadMemStats flushes the per-P caches, so the delta
